@@ -111,6 +111,10 @@ def call_function(ex, qualname, args, kwargs, st, n, closure_node=None, self_obj
         mi, node, parent = ex.program.functions[qualname]
         mi_name = mi.name
     allargs = ([self_obj] if self_obj is not None else []) + list(args)
+    alt = ex.reg.contracts.get(qualname + '2')
+    if c is not None and alt is not None and len(allargs) == len(alt.params) and len(allargs) != len(c.params):
+        bound = dict(zip([p for p, _ in alt.params], allargs))
+        return call_contract(ex, alt, bound, st, n)
     if c is not None and not c.inline:
         bound = bind_args(node, allargs, kwargs, ex, st)
         return call_contract(ex, c, bound, st, n)
@@ -171,7 +175,10 @@ def call_contract(ex, c, bound, st, n):
         callee.locals[pn] = ex.coerce(st.locals[pn], pt)
     callee.heap = st.heap          # shared: lazily created arrays become visible to the caller
     ln = getattr(n, 'lineno', 0)
+    caller_policy = ex.contract.options.get('store_policy', 'engine') if ex.contract is not None else 'engine'
     for cl in c.requires:
+        if cl.label.startswith('engine_') and caller_policy != 'engine':
+            continue      # ownership discipline of engine code; wrappers forward records they hold
         g = ex.ceval(cl.expr, callee, callee, None)
         ex.oblige(st, 'call.%s.%s.l%d' % (c.name, cl.label, ln), g, n, kind='pre', note='precondition of %s' % c.target)
         ex.assume(st, g)
@@ -199,6 +206,11 @@ def call_contract(ex, c, bound, st, n):
                 obj = ex.cvalue(tgt.value, post, pre, result)
                 cur = ex.get_field(post, obj, tgt.attr)
                 ex.assume(st, Eq(cur.t, ex.coerce(v, cur.pt).t))
+            elif isinstance(tgt, ast.Call) and isinstance(tgt.func, ast.Name) and tgt.func.id in ('is_held', 'is_owned_below'):
+                x = ex.cvalue(tgt.args[0], post, pre, result)
+                gname = '$held' if tgt.func.id == 'is_held' else '$wowned'
+                arr = ex.ghost_set(st, gname)
+                st.heap[gname] = Store(arr, x.t, v.t)
             else:
                 raise OutOfSubset('ghost_update target')
         for cl in c.ensures:
@@ -322,7 +334,7 @@ def construct(ex, cls, args, kwargs, st, n):
     ci = ex.reg.classes.get(cls)
     if ci is None:
         raise OutOfSubset('construction of undeclared class %s at line %d' % (cls, n.lineno))
-    ref = ex.new_ref(st)
+    ref = ex.new_ref(st, TObj(cls))
     obj = SV(TObj(cls), ref)
     carr = ex.harr(st, '$cls', ArrS(INT, INT))
     st.heap['$cls'] = Store(carr, ref, IntC(ex.program.class_id(cls)))
@@ -430,8 +442,12 @@ def list_method(ex, base, attr, args, kwargs, st, n):
         ex.set_list_content(st, base, Concat(seq, ex.as_seq(st, args[0], ept)), n)
         return NONE
     if attr == 'reverse':
-        from . import speclib
-        ex.set_list_content(st, base, speclib.seq_rev(ex, seq), n)
+        # pointwise model (A-PY): same length, element k is old element len-1-k
+        r = fresh('reversed', seq.sort)
+        k = BVar('rk', INT)
+        st.pc.append(Eq(Len(r), Len(seq)))
+        st.pc.append(smt.ForAll([k], Implies(And(Ge(k, IntC(0)), Lt(k, Len(seq))), Eq(Nth(r, k), Nth(seq, Sub(Sub(Len(seq), IntC(1)), k))))))
+        ex.set_list_content(st, base, r, n)
         return NONE
     if attr == 'remove':
         # remove first occurrence; only supported for python-constant lists (statement groups)
